@@ -1384,7 +1384,7 @@ def gen_cases(tier, rng):
     k3 = 0
     for c in cases:
         if c.get("sub") in ("iso3", "iso4", "random"):
-            c["deep"] = (k3 % (2 if c["sub"] == "random" else 4) == 0)
+            c["deep"] = (k3 % ((2 if c["sub"] == "random" else 4) * (1 if tier == "quick" else 3)) == 0)
             k3 += 1
     step = max(1, len(cases) // (len(fam) + 1))
     for k, c in enumerate(fam):
